@@ -33,9 +33,9 @@ Judge(r) ==
                                 ELSE NoDup(r.seq) /\ SeqSet(r.seq) = Shown(d, r.tips, r.ends, TRUE)
           \* audit events: git's limited walks without generation numbers are the reference only without clock skew
           [] m = "g_topo"    -> (r.nograph /\ ~SkewFree(d)) \/ r.seq = TopoOrder(d, r.tips, r.ends, FALSE, FALSE)
-          [] m = "g_topo_fp" -> (r.nograph /\ ~SkewFree(d)) \/ r.seq = TopoOrderE(d, r.tips, r.ends, TRUE, FALSE, r.nograph)
+          [] m = "g_topo_fp" -> (r.nograph /\ ~SkewFree(d)) \/ r.seq = TopoOrderE(d, r.tips, r.ends, TRUE, FALSE, IF r.nograph THEN "all" ELSE "graph")
           [] m = "g_date"    -> (r.nograph /\ ~SkewFree(d)) \/ r.seq = TopoOrder(d, r.tips, r.ends, FALSE, TRUE)
-          [] m = "g_date_fp" -> (r.nograph /\ ~SkewFree(d)) \/ r.seq = TopoOrderE(d, r.tips, r.ends, TRUE, TRUE, r.nograph)
+          [] m = "g_date_fp" -> (r.nograph /\ ~SkewFree(d)) \/ r.seq = TopoOrderE(d, r.tips, r.ends, TRUE, TRUE, IF r.nograph THEN "all" ELSE "graph")
           [] m = "g_def"     -> r.seq = DefaultOrder(d, r.tips, FALSE, 0)
           [] m = "g_def_fp"  -> r.seq = DefaultOrder(d, r.tips, TRUE, 0)
           [] m = "g_cut"     -> r.seq = DefaultOrder(d, r.tips, FALSE, r.cutoff)
